@@ -53,6 +53,8 @@ func doPanic(kind string, tok int) {
 	case "index":
 		var s []int
 		_ = s[tok]
+	case "nil":
+		panic(nil)
 	}
 }
 
@@ -221,6 +223,9 @@ func (h *RevHandler) Who(ctx context.Context, tok int) (string, error) {
 	t := h.e.Tok(tok)
 	if t.Hold {
 		simrt.Yield("revhandler-" + strconv.Itoa(tok))
+	}
+	if t.Panic != "" && t.Kind == "rev" {
+		doPanic(t.Panic, tok)
 	}
 	return h.name + "/" + strconv.Itoa(tok), nil
 }
